@@ -55,6 +55,13 @@ def patterns():
         "E": arr(1, 3, [0, 1], adj=True),
         "E2": arr(3, 3, [0, 1], adj=[(-1, -1), (-1, 1), (1, -1), (1, 1)]),          # diagonal neighbours only
         "E3": arr(2, 3, [0, 1, 2], sym=True, adj=[(0, 1), (0, -1), (1, 1), (-1, -1)]),
+        "E4": arr(3, 4, [0, 1], sym=True, adj=[(0, -1), (0, 1)]),      # a cell's own mirror image sits at a forbidden offset
+        "E5": arr(1, 6, [0, 1, 2], sym=True, adj=[(0, -1), (0, 1)]),
+        "E6": arr(4, 3, [0, 1], sym=True, adj=[(-1, 0), (1, 0)]),
+        # values beyond CPython's small-int cache, the default given as a distinct object from the equal choice element
+        "L1": (lambda: ArrayBuilder2D(2, 3, [int("300"), int("301"), int("302")], default=int("300"), symmetry=True),
+               {"kind": "array", "h": 2, "w": 3, "choice": [300, 301, 302], "default": 300, "symmetry": True,
+                "adjacent": False, "offsets": [], "move": False}, flat),
         "F": arr(2, 2, [0, 1, 2], move=True),
         "G": arr(2, 3, [0, 1, 2], sym=True, adj=True, move=True),
         "G2": arr(3, 3, [0, 1, 2], sym=True, adj=True),
